@@ -544,7 +544,11 @@ def sym_range(I, args):
         d = L.to_z3(lo) - L.to_z3(hi)
         ln = z3.If(d > 0, (d + (-st - 1)) / (-st), 0)
     ln = z3.simplify(ln)
-    return SIter(ln, lambda k: lo + k * st, "range")
+    if st > 0:
+        cont = lambda v: L.And(L.le(lo, v), L.lt(v, hi), True if st == 1 else L.eq(L.mod(v - lo, st), 0))
+    else:
+        cont = lambda v: L.And(L.le(v, lo), L.lt(hi, v), True if st == -1 else L.eq(L.mod(lo - v, -st), 0))
+    return SIter(ln, lambda k: lo + k * st, "range", contains=cont)
 
 
 # ---------------------------------------------------------------------------
